@@ -359,6 +359,56 @@ def run(tier: str) -> int:
     return chk.finish()
 
 
+def selftest(tier: str) -> int:
+    """In-process mutation probes (never /repo): the library's locks replaced by no-ops."""
+    from contextlib import contextmanager
+    from . import boot
+    from .core import run_probes
+    boot.setup()
+    _setup()
+    import django_components.perfutil.provide as pp
+    import django_components.util.cache as uc
+
+    class NoLock:
+        def __enter__(self):
+            return self
+
+        def __exit__(self, *a):
+            return False
+
+        def acquire(self, *a, **k):
+            return True
+
+        def release(self):
+            pass
+
+    @contextmanager
+    def provide_lock_removed():
+        old = pp._provide_lock
+        pp._provide_lock = NoLock()
+        try:
+            yield
+        finally:
+            pp._provide_lock = old
+
+    @contextmanager
+    def lru_lock_removed():
+        old = uc.threading
+
+        class Shim:
+            RLock = staticmethod(lambda: NoLock())
+            Lock = staticmethod(lambda: NoLock())
+        uc.threading = Shim
+        try:
+            yield
+        finally:
+            uc.threading = old
+
+    def small(chk):
+        body(chk, pairs=[("ok", "fail")], triples=[], limit=20, n_pre2=150, n_random=25)
+    return run_probes(PID, [("provide-lock-removed", provide_lock_removed), ("lru-lock-removed", lru_lock_removed)], small)
+
+
 def replay(path: str) -> int:
     from . import boot
     boot.setup()
